@@ -103,7 +103,11 @@ func runProc(spec Spec, bin, scratch, test, seed string, idx int, extraArgs []st
 	args = append(args, extraArgs...)
 	cmd := exec.Command(bin, args...)
 	cmd.Dir = dir
-	cmd.Env = append(os.Environ(), "VERIF_OUT="+out, "VERIF_TIER="+spec.Tier, fmt.Sprintf("VERIF_SEED=%d", spec.Seed), "VERIF_REPO="+jbuild.Repo(), "VERIF_DIR="+jbuild.VerifDir())
+	// temporary files of the harness process live in the run's scratch directory, which is removed even when the
+	// process is killed by the watchdog
+	tmp := filepath.Join(dir, "tmp")
+	os.MkdirAll(tmp, 0o755)
+	cmd.Env = append(os.Environ(), "TMPDIR="+tmp, "VERIF_OUT="+out, "VERIF_TIER="+spec.Tier, fmt.Sprintf("VERIF_SEED=%d", spec.Seed), "VERIF_REPO="+jbuild.Repo(), "VERIF_DIR="+jbuild.VerifDir())
 	if spec.Budget > 0 {
 		cmd.Env = append(cmd.Env, fmt.Sprintf("VERIF_DEADLINE_UNIX=%d", time.Now().Add(spec.Budget).Unix()))
 	}
